@@ -264,7 +264,9 @@ class SymbolicExpression(Generic[T], ABC):
         required_vars = self._parent_._required_variables_from_child_(self, when_true=not self._is_false_)
         if not required_vars:
             return False
-        required_output = {k: v for k, v in output.items() if k in required_vars}
+        # the element of a flattened expression distinguishes outputs just like a variable binding does
+        required_output = {k: v for k, v in output.items()
+                           if k in required_vars or isinstance(self._id_expression_map_.get(k), Flatten)}
         if not required_output:
             return False
         # Use a per-parent seen set to avoid suppressing outputs across different parent contexts
@@ -1325,7 +1327,21 @@ class BinaryOperator(SymbolicExpression, ABC):
         super().__post_init__()
         self.left, self.right = self._update_children_(self.left, self.right)
         combined_vars = self.left._unique_variables_.union(self.right._unique_variables_)
-        self._cache_.keys = [v.id_ for v in combined_vars.filter(lambda v: not isinstance(v.value, Literal))]
+        self._cache_.keys = [v.id_ for v in combined_vars.filter(lambda v: not isinstance(v.value, Literal))] \
+            + self._flatten_ids_(self.left, self.right)
+
+    @staticmethod
+    def _flatten_ids_(*operands: SymbolicExpression) -> List[int]:
+        """
+        A flattened expression takes several values under one binding of its variables, so results cached for an operand
+        that mentions it are only valid for that element: its id is part of the cache key, like a variable's.
+        """
+        ids = []
+        for operand in operands:
+            for node in [operand] + operand._descendants_:
+                if isinstance(node, Flatten) and node._id_ not in ids:
+                    ids.append(node._id_)
+        return ids
 
     def yield_final_output_from_cache(self, variables_sources, cache: Optional[IndexedCache] = None) \
             -> Iterable[Dict[int, HashedValue]]:
@@ -1613,7 +1629,7 @@ class LogicalOperator(BinaryOperator, ABC):
     def __post_init__(self):
         super().__post_init__()
         right_vars = self.right._unique_variables_.filter(lambda v: not isinstance(v.value, Literal))
-        self.right_cache.keys = [v.id_ for v in right_vars]
+        self.right_cache.keys = [v.id_ for v in right_vars] + self._flatten_ids_(self.right)
 
     @property
     def _name_(self):
